@@ -409,6 +409,33 @@ Section Gated.
         exists (Some true). split; [|reflexivity]. apply scanq_true; [reflexivity|exact Q].
   Qed.
 
+  Lemma after_mgr_scan fuel w load e k res w1 : after_mgr is_space fuel w h n load = (e, k, res, w1) ->
+    od_on w = true -> okkid e /\ Forall okkid k.
+  Proof.
+    unfold after_mgr. intros H D.
+    destruct (gate is_space w n false) as [[ge a] w0] eqn:G. cbv beta iota zeta in H.
+    pose proof (gate_od _ _ _ _ _ _ _ G) as O0.
+    assert (D0 : od_on w0 = true) by (rewrite (od_on_eq _ _ O0); exact D).
+    destruct (gate_scan is_space _ _ _ _ _ _ None G) as (s0 & H0 & Imp).
+    destruct a; cbn [negb] in H.
+    2:{ inv H. split; [exists s0; exact H0|constructor]. }
+    destruct (Imp eq_refl D) as [-> Q].
+    destruct ((od_on w0 || almost_full w0) && load).
+    2:{ inv H. split; [exists (Some true); exact H0|constructor]. }
+    destruct (load_and_maintain is_space (S fuel) w0 h n false) as [[[e1 k1] r1] w2] eqn:E1.
+    apply lam_scan in E1 as ((s1 & S1 & N1) & K1 & O1); [|exact D0|exact Q].
+    destruct r1 as [m|].
+    + assert (X : okkid (ge ++ e1)) by (exists s1; rewrite scanq_app, H0; exact S1).
+      destruct m; inv H; split; assumption.
+    + rewrite (N1 eq_refl) in S1.
+      assert (D2 : od_on w2 = true) by (rewrite (od_on_eq _ _ O1); exact D0).
+      rewrite D2 in H.
+      destruct (obtain_on_demand _ _ _ _) as [[[e2 k2] m2] w3] eqn:E2.
+      apply (ood_scan _ (lam_scan fuel)) in E2 as ((s2 & S2) & K2 & _); [|exact D2|exact Q].
+      inv H. split; [|apply Forall_app; auto].
+      exists s2. rewrite scanq_app, H0, scanq_app, S1. exact S2.
+  Qed.
+
   Lemma get_cert_scan fuel w load e k res w1 : get_cert is_space fuel w h load = (e, k, res, w1) ->
     od_on w = true -> okkid e /\ Forall okkid k.
   Proof.
@@ -419,27 +446,13 @@ Section Gated.
         apply (maint_scan _ (lam_scan fuel)) in E1 as (A1 & K1 & _); [|exact D]. inv H.
         split; [apply anyst_kid; exact A1|exact K1].
       + inv H. split; [exists None; reflexivity|constructor].
-    - rewrite Hn in H.
-      destruct (gate is_space w n false) as [[ge a] w0] eqn:G. cbv beta iota zeta in H.
-      pose proof (gate_od _ _ _ _ _ _ _ G) as O0.
-      assert (D0 : od_on w0 = true) by (rewrite (od_on_eq _ _ O0); exact D).
-      destruct (gate_scan is_space _ _ _ _ _ _ None G) as (s0 & H0 & Imp).
-      destruct a; cbn [negb] in H.
-      2:{ inv H. split; [exists s0; exact H0|constructor]. }
-      destruct (Imp eq_refl D) as [-> Q].
-      destruct ((od_on w0 || almost_full w0) && load).
-      2:{ inv H. split; [exists (Some true); exact H0|constructor]. }
-      destruct (load_and_maintain is_space (S fuel) w0 h n false) as [[[e1 k1] r1] w2] eqn:E1.
-      apply lam_scan in E1 as ((s1 & S1 & N1) & K1 & O1); [|exact D0|exact Q].
-      destruct r1 as [m|].
-      + inv H. split; [|exact K1]. exists s1. rewrite scanq_app, H0. exact S1.
-      + rewrite (N1 eq_refl) in S1.
-        assert (D2 : od_on w2 = true) by (rewrite (od_on_eq _ _ O1); exact D0).
-        rewrite D2 in H.
-        destruct (obtain_on_demand _ _ _ _) as [[[e2 k2] m2] w3] eqn:E2.
-        apply (ood_scan _ (lam_scan fuel)) in E2 as ((s2 & S2) & K2 & _); [|exact D2|exact Q].
-        inv H. split; [|apply Forall_app; auto].
-        exists s2. rewrite scanq_app, H0, scanq_app, S1. exact S2.
+    - rewrite Hn in H. destruct (mgr_view w h).
+      + eapply after_mgr_scan; eauto.
+      + destruct (after_mgr is_space fuel w h n load) as [[[e1 k1] r1] w2] eqn:E1. inv H.
+        apply after_mgr_scan in E1 as [[st A] K]; [|exact D]. split; [|exact K].
+        exists st. cbn [scanq is_eval needs_gate]. exact A.
+      + inv H. split; [exists None; reflexivity|constructor].
+      + inv H. split; [exists None; reflexivity|constructor].
   Qed.
 End Gated.
 
@@ -590,6 +603,24 @@ Section OdOff.
       + inv H. split; [reflexivity|split; [constructor|reflexivity]].
   Qed.
 
+  Lemma after_mgr_off fuel w n load e k res w1 : after_mgr is_space fuel w h n load = (e, k, res, w1) ->
+    od_on w = false -> noissue e /\ Forall noissue k.
+  Proof.
+    unfold after_mgr. intros H D.
+    destruct (gate is_space w n false) as [[ge a] w0] eqn:G. cbv beta iota zeta in H.
+    pose proof (gate_od _ _ _ _ _ _ _ G) as O0.
+    pose proof (gate_noissue _ _ _ _ _ _ _ G) as NG.
+    assert (D0 : od_on w0 = false) by (rewrite (od_on_eq _ _ O0); exact D).
+    destruct a; cbn [negb] in H; [|inv H; split; [exact NG|constructor]].
+    destruct ((od_on w0 || almost_full w0) && load); [|inv H; split; [exact NG|constructor]].
+    destruct (load_and_maintain is_space (S fuel) w0 h n false) as [[[e1 k1] r1] w2] eqn:E1.
+    apply lam_off in E1 as (A1 & K1 & O1); [|exact D0].
+    destruct r1 as [m|].
+    + destruct m; inv H; (split; [apply noissue_app; assumption|exact K1]).
+    + assert (D2 : od_on w2 = false) by (rewrite (od_on_eq _ _ O1); exact D0).
+      rewrite D2 in H. inv H. split; [apply noissue_app; assumption|exact K1].
+  Qed.
+
   Lemma get_cert_off fuel w load e k res w1 : get_cert is_space fuel w h load = (e, k, res, w1) ->
     od_on w = false -> noissue e /\ Forall noissue k.
   Proof.
@@ -597,18 +628,7 @@ Section OdOff.
     destruct (match h_hit h with Some id => cache_find id w | None => None end) as [c|].
     - rewrite D, andb_false_r in H. cbn [andb] in H. inv H. split; [reflexivity|constructor].
     - destruct (h_name h) as [n|]; [|inv H; split; [reflexivity|constructor]].
-      destruct (gate is_space w n false) as [[ge a] w0] eqn:G. cbv beta iota zeta in H.
-      pose proof (gate_od _ _ _ _ _ _ _ G) as O0.
-      pose proof (gate_noissue _ _ _ _ _ _ _ G) as NG.
-      assert (D0 : od_on w0 = false) by (rewrite (od_on_eq _ _ O0); exact D).
-      destruct a; cbn [negb] in H; [|inv H; split; [exact NG|constructor]].
-      destruct ((od_on w0 || almost_full w0) && load); [|inv H; split; [exact NG|constructor]].
-      destruct (load_and_maintain is_space (S fuel) w0 h n false) as [[[e1 k1] r1] w2] eqn:E1.
-      apply lam_off in E1 as (A1 & K1 & O1); [|exact D0].
-      destruct r1 as [m|].
-      + inv H. split; [apply noissue_app; assumption|exact K1].
-      + assert (D2 : od_on w2 = false) by (rewrite (od_on_eq _ _ O1); exact D0).
-        rewrite D2 in H. inv H. split; [apply noissue_app; assumption|exact K1].
+      unfold mgr_view in H. rewrite D in H. eapply after_mgr_off; eauto.
   Qed.
 End OdOff.
 
@@ -707,8 +727,23 @@ Section Main.
     apply existsb_exists. exists g. split; [exact Hg|]. apply existsb_exists. exists (EIssue s). auto.
   Qed.
 
+  Lemma after_mgr_lazy fuel w h n e k res w1 :
+    after_mgr is_space fuel w h n false = (e, k, res, w1) ->
+    noneed e /\ k = [] /\ w_cache w1 = w_cache w /\ w_store w1 = w_store w.
+  Proof.
+    unfold after_mgr. intros H.
+    destruct (gate is_space w n false) as [[ge a] w0] eqn:G. cbv beta iota zeta in H.
+    pose proof (gate_noneed _ _ _ _ _ _ _ G) as NG.
+    assert (W : w_cache w0 = w_cache w /\ w_store w0 = w_store w).
+    { revert G. unfold gate. destruct (false && negb (od_on w)); [intros G; inv G; auto|].
+      destruct (negb (qualifies is_space n)); [intros G; inv G; auto|].
+      destruct (w_od w) as [[f|l]|]; intros G; inv G; auto. }
+    destruct a; cbn [negb] in H; [|inv H; tauto].
+    rewrite andb_false_r in H. inv H. tauto.
+  Qed.
+
   (** a handshake re-entering after a wait (loadOrObtainIfNecessary = false) causes no Issue / Load
-      and spawns nothing, whatever the world *)
+      and spawns nothing, whatever the world (it may ask the external managers again) *)
   Theorem waiter_effect_free fuel w h e k res w1 :
     get_cert is_space fuel w h false = (e, k, res, w1) ->
     noneed e /\ k = [] /\ w_cache w1 = w_cache w /\ w_store w1 = w_store w.
@@ -717,14 +752,12 @@ Section Main.
     destruct (match h_hit h with Some id => cache_find id w | None => None end) as [c|].
     - rewrite andb_false_r in H. inv H. repeat split.
     - destruct (h_name h) as [n|]; [|inv H; repeat split].
-      destruct (gate is_space w n false) as [[ge a] w0] eqn:G. cbv beta iota zeta in H.
-      pose proof (gate_noneed _ _ _ _ _ _ _ G) as NG.
-      assert (W : w_cache w0 = w_cache w /\ w_store w0 = w_store w).
-      { revert G. unfold gate. destruct (false && negb (od_on w)); [intros G; inv G; auto|].
-        destruct (negb (qualifies is_space n)); [intros G; inv G; auto|].
-        destruct (w_od w) as [[f|l]|]; intros G; inv G; auto. }
-      destruct a; cbn [negb] in H; [|inv H; tauto].
-      rewrite andb_false_r in H. inv H. tauto.
+      destruct (mgr_view w h).
+      + eapply after_mgr_lazy; eauto.
+      + destruct (after_mgr is_space fuel w h n false) as [[[e1 k1] r1] w2] eqn:E1. inv H.
+        apply after_mgr_lazy in E1 as (A & B & C & D). repeat split; assumption.
+      + inv H. repeat split.
+      + inv H. repeat split.
   Qed.
 End Main.
 
@@ -1019,6 +1052,26 @@ Section Truthful.
         constructor; [exact I|constructor; [exact I|constructor]].
   Qed.
 
+  Lemma after_mgr_truthful fuel w n load e k res w1 : after_mgr is_space fuel w h n load = (e, k, res, w1) ->
+    winv w -> plain e /\ Forall plain k /\ winv w1.
+  Proof.
+    unfold after_mgr. intros H W.
+    destruct (gate is_space w n false) as [[ge a] w0] eqn:G. cbv beta iota zeta in H.
+    apply gate_truthful in G as [PG W0]; [|exact W].
+    destruct a; cbn [negb] in H; [|inv H; split; [exact PG|split; [constructor|exact W0]]].
+    destruct ((od_on w0 || almost_full w0) && load); [|inv H; split; [exact PG|split; [constructor|exact W0]]].
+    destruct (load_and_maintain is_space (S fuel) w0 h n false) as [[[e1 k1] r1] w2] eqn:E1.
+    apply lam_truthful in E1 as (A1 & K1 & W2); [|exact W0].
+    destruct r1 as [m|].
+    + destruct m; inv H; (split; [apply plain_app; assumption|auto]).
+    + destruct (od_on w2).
+      * destruct (obtain_on_demand _ _ _ _) as [[[e2 k2] m2] w3] eqn:E2.
+        apply (ood_truthful _ (lam_truthful fuel)) in E2 as (A2 & K2 & W3); [|exact W2]. inv H.
+        split; [apply plain_app; [exact PG|apply plain_app; assumption]|].
+        split; [apply Forall_app; auto|exact W3].
+      * inv H. split; [apply plain_app; assumption|auto].
+  Qed.
+
   Lemma get_cert_truthful fuel w load e k res w1 : get_cert is_space fuel w h load = (e, k, res, w1) ->
     winv w -> plain e /\ Forall plain k /\ winv w1.
   Proof.
@@ -1029,20 +1082,13 @@ Section Truthful.
         apply (maint_truthful _ (lam_truthful fuel)) in E1 as (A1 & K1 & W1); [|exact W]. inv H. auto.
       + inv H. split; [constructor|split; [constructor|exact W]].
     - destruct (h_name h) as [n|]; [|inv H; split; [constructor|split; [constructor|exact W]]].
-      destruct (gate is_space w n false) as [[ge a] w0] eqn:G. cbv beta iota zeta in H.
-      apply gate_truthful in G as [PG W0]; [|exact W].
-      destruct a; cbn [negb] in H; [|inv H; split; [exact PG|split; [constructor|exact W0]]].
-      destruct ((od_on w0 || almost_full w0) && load); [|inv H; split; [exact PG|split; [constructor|exact W0]]].
-      destruct (load_and_maintain is_space (S fuel) w0 h n false) as [[[e1 k1] r1] w2] eqn:E1.
-      apply lam_truthful in E1 as (A1 & K1 & W2); [|exact W0].
-      destruct r1 as [m|].
-      + inv H. split; [apply plain_app; assumption|auto].
-      + destruct (od_on w2).
-        * destruct (obtain_on_demand _ _ _ _) as [[[e2 k2] m2] w3] eqn:E2.
-          apply (ood_truthful _ (lam_truthful fuel)) in E2 as (A2 & K2 & W3); [|exact W2]. inv H.
-          split; [apply plain_app; [exact PG|apply plain_app; assumption]|].
-          split; [apply Forall_app; auto|exact W3].
-        * inv H. split; [apply plain_app; assumption|auto].
+      destruct (mgr_view w h).
+      + eapply after_mgr_truthful; eauto.
+      + destruct (after_mgr is_space fuel w h n load) as [[[e1 k1] r1] w2] eqn:E1. inv H.
+        apply after_mgr_truthful in E1 as (A & K & W1); [|exact W].
+        split; [constructor; [exact I|exact A]|auto].
+      + inv H. split; [constructor; [exact I|constructor]|split; [constructor|exact W]].
+      + inv H. split; [constructor; [exact I|constructor]|split; [constructor|exact W]].
   Qed.
 End Truthful.
 
